@@ -306,3 +306,88 @@ func runC16BadConnection(c *Ctx, w *ATWorld) {
 		w.Eng.DropTable(table)
 	}
 }
+
+// ---- db.Ping reaches the database, through the proxy as through the plain driver: a driver that does not
+// implement driver.Pinger gets its pings answered by database/sql itself, with success, dead connection or not
+// (cases c16-p*).
+func runC16Ping(c *Ctx, w *ATWorld) {
+	xa := w.OpenXA()
+	for n, h := range []struct {
+		name string
+		db   *sql.DB
+	}{{"bare", w.Bare}, {"at", w.DB}, {"xa", xa}} {
+		cid := fmt.Sprintf("c16-p%d", n)
+		if !c.Want(cid) {
+			continue
+		}
+		before := w.Eng.Pings()
+		var err error
+		crash := safeCall(func() {
+			ctx, cancel := context.WithTimeout(context.Background(), 5*time.Second)
+			defer cancel()
+			err = h.db.PingContext(ctx)
+		})
+		reached := w.Eng.Pings() - before
+		c.Out.Case(cid, "C16", "skip", "skip")
+		class, detail := "", ""
+		switch {
+		case crash != "":
+			class, detail = "crash", crash
+		case err != nil:
+			class, detail = "ping_failed", err.Error()
+		case reached == 0:
+			class, detail = "ping_does_not_reach_the_database", "db.Ping answered nil, no ping arrived at the database"
+		}
+		c.Out.Oracle(cid, class == "", class, detail+" | handle="+h.name)
+		c.Out.Tag(cid, "nontrivial=1")
+		c.Out.Count("ping." + h.name)
+	}
+}
+
+// ---- a locking read with a placeholder outside WHERE / ORDER BY / LIMIT (in its select list): the executor's key
+// query keeps the WHERE and must be given the WHERE's arguments only (cases c16-q*).
+func runC16SelectListArg(c *Ctx, w *ATWorld) {
+	for n, q := range []string{
+		"SELECT id, ? AS tag FROM %s WHERE id = ? FOR UPDATE",
+		"SELECT ? AS tag, id FROM %s WHERE id >= ? AND id <= ? ORDER BY id LIMIT ? FOR UPDATE",
+	} {
+		cid := fmt.Sprintf("c16-q%d", n+1)
+		if !c.Want(cid) {
+			continue
+		}
+		table := w.NewTableName("qarg")
+		w.Eng.CreateTable(memdb.TableDef{Name: table, Cols: []memdb.Column{{Name: "id", Type: memdb.TBigInt}, {Name: "n", Type: memdb.TBigInt, Nullable: true}}, PK: []string{"id"}})
+		w.Eng.InsertRows(table, memdb.Row{int64(1), int64(10)}, memdb.Row{int64(2), int64(20)}, memdb.Row{int64(3), int64(30)})
+		args := []interface{}{"t", 2}
+		if n == 1 {
+			args = []interface{}{"t", 1, 3, 2}
+		}
+		run := func(ctx context.Context, db *sql.DB) string {
+			rows, err := db.QueryContext(ctx, fmt.Sprintf(q, table), args...)
+			if err != nil {
+				return errText(err)
+			}
+			return scanAll(rows)
+		}
+		var proxy, bare string
+		crash := safeCall(func() {
+			bare = run(context.Background(), w.Bare)
+			InGlobalTx(cid, func(ctx context.Context) error {
+				proxy = run(ctx, w.DB)
+				return nil
+			})
+		})
+		c.Out.Case(cid, "C16", "skip", "skip")
+		class, detail := "", ""
+		switch {
+		case crash != "":
+			class, detail = "crash", crash
+		case proxy != bare:
+			class, detail = "different_result", fmt.Sprintf("plain driver: %s; proxy inside a global transaction: %s", bare, proxy)
+		}
+		c.Out.Oracle(cid, class == "", class, detail+" | "+fmt.Sprintf(q, table))
+		c.Out.Tag(cid, "nontrivial=1")
+		c.Out.Count("select-list-argument")
+		w.Eng.DropTable(table)
+	}
+}
